@@ -1,7 +1,7 @@
 From Coq Require Import ZArith List Bool.
 From Cspuz Require Import Lib.PyErr Core.Expr Core.Build Array.Slice Array.Elementwise Array.Helpers
   Array.ArraySpec Gen.DunderTable Array.DunderProofs Array.ElementwiseProofs Array.ProtocolProofs
-  Array.HelpersProofs.
+  Array.HelpersProofs Array.C12Examples.
 Import ListNotations.
 Open Scope Z_scope.
 
@@ -28,6 +28,27 @@ Print Assumptions elementwise_defined.
 Theorem dunder_table_correct : forall c m, lookup_row dunder_table c m = lookup_method c m.
 Proof. exact dunder_table_lookup. Qed.
 Print Assumptions dunder_table_correct.
+
+(* the type-check chain of _elementwise and the isinstance predicates, read from the source *)
+Theorem type_table_correct : forall o ops, tc_eval gen_elem_table o ops = elem_typecheck o ops.
+Proof. exact gen_elem_table_correct. Qed.
+Print Assumptions type_table_correct.
+
+Theorem like_predicates_correct : forall v,
+  like_eval gen_is_bool_like (class_of v) = is_bool_like v /\
+  like_eval gen_is_int_like (class_of v) = is_int_like v /\
+  like_eval gen_is_bool_expr_like (class_of v) = is_bool_expr_like_v v /\
+  like_eval gen_is_int_expr_like (class_of v) = is_int_expr_like_v v.
+Proof.
+  exact (fun v => conj (gen_is_bool_like_correct v) (conj (gen_is_int_like_correct v)
+          (conj (gen_is_bool_expr_like_correct v) (gen_is_int_expr_like_correct v)))).
+Qed.
+Print Assumptions like_predicates_correct.
+
+Theorem result_kind_lists_correct : forall o,
+  existsb (op_eqb o) gen_bool_ops = is_bool_op o /\ existsb (op_eqb o) gen_int_ops = is_int_op o.
+Proof. exact (fun o => conj (gen_bool_ops_correct o) (gen_int_ops_correct o)). Qed.
+Print Assumptions result_kind_lists_correct.
 
 (* A op B, A op s, s op A through CPython's operator protocol (operand order kept) *)
 Theorem operator_forms_pointwise : forall o same a b k sh,
@@ -73,6 +94,30 @@ Theorem cond_method_is_cond : forall self t f,
   bool_class self = true -> call_method self m_cond [t; f] = fn_cond self t f.
 Proof. exact cond_method_is_function. Qed.
 Print Assumptions cond_method_is_cond.
+
+(* the scalar forms of BoolExpr / IntExpr (incl. literal operands on either side) *)
+Theorem scalar_forms_sem : forall o same ea eb k,
+  operands_ok o k (VE ea) (VE eb) = true ->
+  is_builtin (class_of (VE ea)) && is_builtin (class_of (VE eb)) = false ->
+  exists e, py_binop o same (VE ea) (VE eb) = Ok (VE e) /\
+    forall en, eval no_graph en e = pyop_sem o k (eval no_graph en ea) (eval no_graph en eb).
+Proof. exact scalar_binop_sem. Qed.
+Print Assumptions scalar_forms_sem.
+
+Theorem scalar_then_form_sem : forall ex ey,
+  has_kind KB (VE ex) && has_kind KB (VE ey) = true ->
+  fn_then (VE ex) (VE ey) = Ok (VE (BNode IMP [ex; ey])) /\
+  forall en, eval no_graph en (BNode IMP [ex; ey]) = then_sem (eval no_graph en ex) (eval no_graph en ey).
+Proof. exact scalar_then_sem. Qed.
+Print Assumptions scalar_then_form_sem.
+
+Theorem scalar_cond_form_sem : forall ec et ef,
+  has_kind KB (VE ec) && has_kind KI (VE et) && has_kind KI (VE ef) = true ->
+  fn_cond (VE ec) (VE et) (VE ef) = Ok (VE (INode IF [ec; et; ef])) /\
+  forall en, eval no_graph en (INode IF [ec; et; ef]) =
+             cond_sem (eval no_graph en ec) (eval no_graph en et) (eval no_graph en ef).
+Proof. exact scalar_cond_sem. Qed.
+Print Assumptions scalar_cond_form_sem.
 
 (* a boolean-valued operand where an integer-valued one is required, or vice versa *)
 Theorem ill_typed_rejected : forall o same a b k,
@@ -185,3 +230,37 @@ Theorem four_neighbors_cells : forall k h w data a y x,
     Forall2 (fun p e => nth_error data (Z.to_nat (fst p * w + snd p)) = Some e) idx l.
 Proof. exact four_neighbors_sem. Qed.
 Print Assumptions four_neighbors_cells.
+
+(* the aggregate methods of the array classes: a.fold_or(), a.fold_and(), a.count_true(), a.alldifferent() *)
+Theorem array_fold_or_method_sem : forall k sh d en bs,
+  k = KB -> denote_bools en d bs ->
+  exists e, call_method (VA k sh d) m_fold_or [] = Ok (VE e) /\
+            ev en e = Some (VB (existsb (fun b => b) bs)).
+Proof. exact array_fold_or_sem. Qed.
+Print Assumptions array_fold_or_method_sem.
+
+Theorem array_fold_and_method_sem : forall k sh d en bs,
+  k = KB -> denote_bools en d bs ->
+  exists e, call_method (VA k sh d) m_fold_and [] = Ok (VE e) /\
+            ev en e = Some (VB (forallb (fun b => b) bs)).
+Proof. exact array_fold_and_sem. Qed.
+Print Assumptions array_fold_and_method_sem.
+
+Theorem array_count_true_method_sem : forall sh d en bs e,
+  call_method (VA KB sh d) m_count_true [] = Ok (VE e) -> denote_bools en d bs ->
+  ev en e = Some (VI (count_trues bs)).
+Proof. exact array_count_true_sem. Qed.
+Print Assumptions array_count_true_method_sem.
+
+Theorem array_alldifferent_method_sem : forall sh d en zs,
+  denote_ints en d zs ->
+  exists e b, call_method (VA KI sh d) m_alldifferent [] = Ok (VE e) /\
+              ev en e = Some (VB b) /\ (b = true <-> NoDup zs).
+Proof. exact array_alldifferent_sem. Qed.
+Print Assumptions array_alldifferent_method_sem.
+
+Theorem literal_operand_is_constant : forall en,
+  (forall b, ev en (PyBool b) = ev en (BNode BOOL_CONSTANT [PyBool b])) /\
+  (forall z, ev en (PyInt z) = ev en (INode INT_CONSTANT [PyInt z])).
+Proof. exact literal_is_constant. Qed.
+Print Assumptions literal_operand_is_constant.
